@@ -2,7 +2,7 @@
    Statements only; every proof is `exact <lemma>`.  Scores are IEEE-754 bit patterns; the two
    decimal conversions (strconv.FormatFloat 'g' 17 / ParseFloat) are parameters related by the
    single law `float_law` (every finite double survives the text round trip in < 253 bytes). *)
-From RS Require Import Base.Bytes Base.Endian Base.Dec Model.Rdb Spec.RdbFormat Spec.Compact Model.Cupcake Proofs.RdbProofs Proofs.CupcakeProofs.
+From RS Require Import Base.Bytes Base.Endian Base.Dec Model.Rdb Spec.RdbFormat Spec.Compact Model.Cupcake Proofs.RdbProofs Proofs.CupcakeProofs Proofs.WriterProofs.
 Open Scope N_scope.
 
 (* DecodeDump (EncodeDump v) = v for strings, lists, sets, hashes, sorted sets: same elements,
@@ -49,7 +49,29 @@ Example C12_nonvacuous :
     = Some [render (-70000); repeat x61 70; render 12].
 Proof. split; [cbn; repeat split; try lia; repeat constructor; cbn; lia|vm_compute; reflexivity]. Qed.
 
+(* the file the tool's writer produces for a sequence of (database, key, expiry, value) IS a file
+   of the format specification, for an explicit syntax tree (select / expiry / key units, the
+   length and string forms the encoder picks) - so C01's parser theorem applies to it *)
+Theorem C12_writer_is_spec : forall fmt_g17 os, encode_file_objs fmt_g17 os = enc_file 6 (units_of fmt_g17 None os).
+Proof. exact writer_is_spec. Qed.
+
+(* whole-file round trip: the tool's parser reads the tool's writer's file back as one record per
+   object, in order, with the same database, key and expiry and a payload that decodes to the
+   value (hashes below the chunk limit; sizes < 2^32; the text form of a score is a valid double
+   of < 253 bytes) *)
+Theorem C12_file_roundtrip : forall fmt_g17 parse_float limit (os : list obj),
+  (forall b, finite b -> parse_float (fmt_g17 b) = Some b /\ lenN (fmt_g17 b) < 253) ->
+  (forall b, lenB (fmt_g17 b) < 253 /\ float_ok (fmt_g17 b) = true) ->
+  Forall (obj_ok fmt_g17 limit) os -> Forall (fun o => wf_logical (snd o)) os ->
+  exists es, load_all limit (encode_file_objs fmt_g17 os) = Loaded es /\
+    Forall2 (fun (o : obj) e => let '(db, key, exp, v) := o in
+               e_db e = db /\ e_key e = key /\ e_expire e = exp /\ e_real_count e = 0 /\ e_need_len e = 1 /\
+               decode_dump parse_float (e_value e) = Some (canon v)) os es.
+Proof. exact file_roundtrip. Qed.
+
 Print Assumptions C12_dump_roundtrip.
+Print Assumptions C12_writer_is_spec.
+Print Assumptions C12_file_roundtrip.
 Print Assumptions C12_string_roundtrip.
 Print Assumptions C12_ziplist_entry.
 Print Assumptions C12_ziplist.
